@@ -64,6 +64,9 @@ func genC02(c *Ctx) {
 							continue
 						}
 						emit(park >= 1, fmt.Sprintf("%s c=%d n=%d size=%d sync=1 mg=0 park=%d%s script=-", op, cc, n, 2+cc, park, e))
+						if n <= 3 && park >= 1 {
+							emit(true, fmt.Sprintf("%s c=%d n=%d size=%d sync=1 mg=0 park=%d%s lcx=%d script=-", op, cc, n, 2+cc, park, e, cc))
+						}
 					}
 				}
 			}
@@ -109,8 +112,15 @@ func genC02(c *Ctx) {
 						// the consumer returns after the chunks of `park` elements ("[", v, ",", v, ...) were read
 						ends = []string{fmt.Sprintf(" reads=%d", 2*park), " cancel=1 reads=-1"}
 					}
+					if op == "pipe" {
+						ends = append(ends, fmt.Sprintf(" reads=%d cerr=1", 2*park))
+					}
 					for _, e := range ends {
 						emit(true, fmt.Sprintf("%s c=%d n=%d size=3 sync=1 mg=0 park=%d%s%s slowret=150 rep=%d script=-", op, 1+n%2, n+6, park, e, bare, 2+n%2))
+						if bare == "" && op != "pipe" {
+							// the provider under one or two further lifecycle elements (a lock, an added lifecycle)
+							emit(true, fmt.Sprintf("%s c=%d n=%d size=3 sync=1 mg=0 park=%d%s lcx=%d slowret=150 rep=%d script=-", op, 1+n%2, n+6, park, e, 1+n%2, 2+n%2))
+						}
 					}
 				}
 			}
